@@ -280,7 +280,7 @@ fn run_worker(prop: &Prop, cases: u64, seed: u64, worker: u64, known_open: &Hash
     let mut config = Config::default();
     config.cases = cases.min(u32::MAX as u64) as u32;
     config.failure_persistence = None;
-    config.max_shrink_iters = 30_000;
+    config.max_shrink_iters = if prop.id == "C20" { 60 } else { 30_000 }; // a C20 case costs three processes (20 s each when it hangs)
     config.max_global_rejects = u32::MAX;
     config.max_local_rejects = u32::MAX;
     config.verbose = 0;
